@@ -5,6 +5,7 @@ import sys
 
 import common as c
 import evalstream as es
+import c04_depth as cd
 
 PID = "C04"
 MANIFEST = {
@@ -170,6 +171,86 @@ def last(o):
     return o.split(";ENV:")[0].split("|")[-1]
 
 
+def depth_family(res, h, tier, seed, wide, meta, ref_results):
+    """DEPTH axis (checks/c04_depth.py): every closure of the context grammar called at every level of deep
+    recursions whose frames shadow its names; expected = the bare call at top level.
+    -> (programs, implementation results, indices of the programs the model is also run on)"""
+    import time
+    t0 = time.time()
+    rng = c.Rng(seed + 404)
+    quick = tier == "quick"
+    closures = {}
+    for defs, call, cname, ref in meta:
+        ent = closures.setdefault(ref, (defs, call, []))
+        if cname.startswith("shadowing parameter "):
+            ent[2].append(cname[len("shadowing parameter "):])
+    core = {d for d, _, _ in CLOSURES} | {d for d, _, _ in wide}
+    dprogs, dmeta = [], []
+    for ref, (defs, call, names) in closures.items():
+        names = list(dict.fromkeys(names))
+        shapes = cd.SHAPES if (defs in core or not quick) else [rng.choice(cd.SHAPES)]
+        for shape in shapes:
+            cbk = cd.CALLBACKS[len(dprogs) % len(cd.CALLBACKS)]
+            D = cd.draw_depth(rng, shape, deep=(rng.below(7) == 0))
+            p, count = cd.every_level(defs, call, names, shape, D, cbk)
+            dprogs.append(p)
+            dmeta.append((defs, call, names, shape, D, cbk, count, ref))
+    drust = es.rust_eval(h, dprogs)
+    viol, sites, by_shape, depths = 0, 0, {}, []
+    for (defs, call, names, shape, D, cbk, count, ref), r, p in zip(dmeta, drust, dprogs):
+        by_shape[shape] = by_shape.get(shape, 0) + 1
+        depths.append(D)
+        sites += max(1, count)
+        if "PANIC" in r or r.startswith("ABORT"):
+            res.violation("the evaluator panicked/aborted", {"kind": "impl", "program": p, "observed": r[:300]})
+            continue
+        exp = cd.expected_show(ref_results[ref], count)
+        if last(r) == exp:
+            continue
+        viol += 1
+        if viol > 3:
+            continue
+        # smallest recursion depth at which the single call at the bottom differs from the bare call
+        small = [cd.bottom_only(defs, call, names, shape, d, cbk) for d in range(1, D + 1)]
+        so = es.rust_eval(h, small)
+        bad = [i for i, o in enumerate(so) if last(o) != ref_results[ref]]
+        if bad:
+            i = bad[0]
+            res.violation("a closed function returned a different result when called %d levels deep in a recursion "
+                          "whose frames bind its captured / parameter names (%s)" % (i + 1, shape),
+                          {"kind": "impl-law", "family": "DEPTH", "shape": shape, "callback": cbk if shape == "callback" else None,
+                           "levels": i + 1, "failing_levels_up_to_%d" % D: [j + 1 for j in bad[:40]], "shadowed_names": names,
+                           "program": small[i], "reference_program": ref, "observed": last(so[i])[:400],
+                           "expected": ref_results[ref][:400], "rerun": "./check C04 --replay <this file>"})
+        else:
+            res.violation("a closed function called at every level of a %d-level recursion whose frames bind its captured / "
+                          "parameter names did not return its top-level result every time (%s)" % (D, shape),
+                          {"kind": "impl-law", "family": "DEPTH", "shape": shape, "levels": D, "shadowed_names": names,
+                           "program": p, "bare_call_program": ref, "observed": last(r)[:400], "expected": exp,
+                           "expected_is": "%d copies of the reference result" % count if count else "the reference result",
+                           "rerun": "./check C04 --replay <this file>"})
+    sd = sorted(depths)
+    res.streams["DEPTH"] = {"closures": len(closures), "programs": len(dprogs), "by_recursion_shape": by_shape,
+                            "levels_min_median_max": [sd[0], sd[len(sd) // 2], sd[-1]] if sd else [],
+                            "programs_over_500_levels": sum(1 for d in depths if d > 500),
+                            "call_sites_compared": sites, "violations": viol}
+    # the model is run on the shallowest program of each shape (vm_compute; all of them in thorough)
+    force = []
+    for shape in cd.SHAPES:
+        # (not the wide closures: the model's scopes are association lists, 129 names x 130 levels costs 25 s)
+        cand = [(m[4], len(dprogs[i]), i) for i, m in enumerate(dmeta) if m[3] == shape and m[4] <= 400 and len(dprogs[i]) < 500]
+        force += [i for _, _, i in sorted(cand)[: (3 if quick else 60)]]
+    res.streams["DEPTH"]["model_also_run_on"] = len(force)
+    res.coverage["depth_rule"] = ("DEPTH: every closure of the context grammar (+ %d wide ones: 9..129 captured names / parameters) "
+                                  "called at EVERY level of a recursion of 130..900 levels (depths from c.Rng, one program in seven "
+                                  "near the call-depth limit) whose frames bind its captured / parameter names to level-dependent "
+                                  "values, in the shapes %s; each of the call sites must give the result of the bare top-level "
+                                  "call; a failure is minimised to the smallest recursion with a single call at the bottom"
+                                  % (len(wide), ", ".join(cd.SHAPES)))
+    res.streams["DEPTH"]["seconds_generate_run_compare"] = round(time.time() - t0, 1)
+    return dprogs, drust, force
+
+
 def main(argv):
     tier, seed, replay = c.tier_and_seed(argv)
     res = c.Result(PID, tier, seed)
@@ -198,7 +279,8 @@ def main(argv):
 
     # ---------------- context grammar: every closure x every context x argument tuples
     progs, meta = [], []
-    for defs, names, argtuples in CLOSURES + shadow_read_closures():
+    wide = cd.wide_closures(c.Rng(seed + 41), tier == "quick")
+    for defs, names, argtuples in CLOSURES + shadow_read_closures() + wide:
         for args in argtuples:
             call = "F" + args
             ref = defs + "\n" + call
@@ -257,6 +339,8 @@ def main(argv):
                               {"kind": "impl-law", "context": cname, "program": p, "reference_program": ref,
                                "observed": last(r), "expected": ref_results[ref],
                                "rerun": "./check C04 --replay <this file>"})
+    # ---------------- DEPTH: the same calls at every level of deep recursions that shadow the names
+    dprogs, drust, dforce = depth_family(res, h, tier, seed, wide, meta, ref_results)
     # ---------------- argument binding: all documented parameter lists x argument counts 0..n+3
     bprogs, bexp, bshape = [], [], []
     for shape in shape_lists(3 if tier == "quick" else 4):
@@ -307,6 +391,17 @@ def main(argv):
     n_model = 700 if tier == "quick" else len(allp)
     if len(idx) > n_model:
         idx = sorted(rng.shuffle(idx)[:n_model])
+    # the deep programs the model is run on (a few per recursion shape; all in thorough)
+    # (spread over the shards; coqc evaluates them on a 1 GiB stack: vm_compute recurses with the program)
+    for n_, i in enumerate(dforce):
+        idx.insert((n_ * 97) % (len(idx) + 1), len(allp) + i)
+    try:
+        import resource
+        resource.setrlimit(resource.RLIMIT_STACK, (1 << 30, resource.getrlimit(resource.RLIMIT_STACK)[1]))
+    except (ValueError, OSError):
+        pass
+    allp = allp + dprogs
+    allr = allr + drust
     agree, mism, skipped = 0, [], 0
     try:
         coq, _ = es.parse_to_coq(h, [allp[i] for i in idx])
